@@ -105,7 +105,7 @@ func c08Sizes(tier string) (truncP, truncT, flipP, flipT, cross, rderr, ill int)
 		flipT = 400_000
 		rderr = 60_000
 	} else {
-		flipP = 120_000
+		flipP = 400_000
 		flipT = 40_000
 		rderr = 10_000
 	}
